@@ -48,6 +48,7 @@ fn main() {
         readd_case(&mut s, &sc);
     }
     detached_suspend_witness(&mut s);
+    torn_position_read_exhibit(&mut s);
     // insert_before/after read the reference bar's index BEFORE the MultiState lock is taken: a
     // remove(reference) of another thread can fall in between (docs/C02.md "Findings")
     stale_index_race(&mut s, if a.thorough { 200_000 } else if a.extended { 60_000 } else { 10_000 });
@@ -360,6 +361,100 @@ fn readd_case(s: &mut Session, script: &[SOp]) {
     }
     let _ = catch(move || drop(keep));
     s.oracle_only(desc, script.len() >= 4);
+}
+
+/// Open finding D33 `torn-position-read-within-one-frame` (Coq: C02_frame_single_state_refuted).
+/// Within ONE frame the position counter is read several times - `format_state` loads it once for
+/// `{pos}` / `{human_pos}` / the byte keys (style.rs: `let pos = state.pos()`), `{bar}` / `{wide_bar}`
+/// / `{percent}` load it again through `state.fraction()`, `{eta}` / `{per_sec}` again - while
+/// `inc` / `set_position` of ANOTHER thread store it before they take the bar mutex.  Deterministic
+/// exhibit: template "{pos} {slow} {percent}" (length 100); `slow` is a custom key whose write() lets
+/// a second thread (holding a clone) call `inc(1)` and waits until the counter shows the store (the
+/// second thread is then blocked on the bar mutex that this draw holds).  The frame reads
+/// "0 s 1": position 0 and 1 % - a state the bar never had.  Oracle: in every painted frame {pos}
+/// and {percent} must be consistent with ONE counter value (len = 100: equal).
+fn torn_position_read_exhibit(s: &mut Session) {
+    use indicatif::verif_clock as vc;
+    use std::sync::atomic::{AtomicBool, Ordering};
+    use std::sync::Arc;
+    let desc = "torn-read exhibit: template \"{pos} {slow} {percent}\", len 100; thread 2 inc(1) on a clone while thread 1 renders `slow`".to_string();
+    vc::set_clock_ns(vc::ORIGIN_NS);
+    vc::set_auto_step_ns(0);
+    let spy = Spy::new(30, 10);
+    let go = Arc::new(AtomicBool::new(false));
+    let fired = Arc::new(AtomicBool::new(false));
+    let res = catch(|| {
+        let (go_k, fired_k) = (go.clone(), fired.clone());
+        let style = ProgressStyle::with_template("{pos} {slow} {percent}")
+            .unwrap()
+            .with_key("slow", move |st: &indicatif::ProgressState, w: &mut dyn std::fmt::Write| {
+                if !fired_k.swap(true, Ordering::SeqCst) {
+                    let before = st.pos();
+                    go_k.store(true, Ordering::SeqCst); // thread 2: inc(1) now
+                    let t0 = std::time::Instant::now();
+                    // the store of inc() is immediate; its tick then blocks on the bar mutex this draw holds
+                    while st.pos() == before && t0.elapsed() < std::time::Duration::from_secs(2) {
+                        std::thread::yield_now();
+                    }
+                }
+                let _ = w.write_str("s");
+            });
+        let pb = ProgressBar::with_draw_target(Some(100), ProgressDrawTarget::term_like(Box::new(spy.clone())));
+        pb.set_style(style);
+        let writer = {
+            let (pb, go) = (pb.clone(), go.clone());
+            std::thread::spawn(move || {
+                while !go.load(Ordering::SeqCst) {
+                    std::thread::yield_now();
+                }
+                pb.inc(1);
+            })
+        };
+        pb.tick(); // thread 1 paints the first frame; `slow` releases thread 2 in the middle of it
+        go.store(true, Ordering::SeqCst); // (in case the key was never rendered)
+        let _ = writer.join();
+        vc::advance_clock_ns(1_000_000_000);
+        pb.tick();
+        pb
+    });
+    let keep = match res {
+        Err(e) => {
+            s.fail("panic", e, desc.clone());
+            s.oracle_only(desc, true);
+            return;
+        }
+        Ok(k) => k,
+    };
+    // every painted frame: "<pos> s <percent>", len = 100 => one counter value gives pos == percent
+    let mut vt = Vt::new(30, 10);
+    let ops = spy.take();
+    let mut start = 0;
+    let mut frames = 0u64;
+    let mut torn: Option<String> = None;
+    for (i, o) in ops.iter().enumerate() {
+        if *o != TOp::Flush {
+            continue;
+        }
+        vt.feed(&ops[start..=i]);
+        start = i + 1;
+        for row in vt.rows().iter().filter(|r| !r.is_empty()) {
+            let parts: Vec<&str> = row.split(' ').collect();
+            if let [p, "s", q] = parts.as_slice() {
+                frames += 1;
+                if p != q && torn.is_none() {
+                    torn = Some(format!("frame {row:?}: {{pos}} = {p} but {{percent}} = {q} (length 100): no single counter value gives both"));
+                }
+            }
+        }
+    }
+    s.count_n("torn_read_exhibit_frames", frames);
+    if let Some(d) = torn {
+        s.fail("torn-position-read-within-one-frame", d, desc.clone());
+    } else {
+        s.count("torn_read_exhibit_not_torn");
+    }
+    let _ = catch(move || drop(keep));
+    s.oracle_only(desc, true);
 }
 
 /// Coq witness C02_detached_suspend_refuted replayed on the implementation: suspend through a bar
